@@ -108,7 +108,14 @@ def check_roundtrip(inp):
             return Failure('roundtrip', inp, 'OBDD(expr, args) == the same function assembled from nodes',
                            list(parsed) if parsed[0] != 'ok' else 'a different OBDD')
     else:
-        o = OBDD(bdd.to_str(e, 'sym', 'sym'), list(args))
+        mine = list(args)
+        o = OBDD(bdd.to_str(e, 'sym', 'sym'), mine)
+        if len(args) % 2:
+            # the argument list is the CALLER's: it goes on using it (another variable, another order)
+            mine.insert(0, 'zz_later')
+            mine.reverse()
+        else:
+            del mine[:]
     if inp.get('warm'):
         for v in args:
             for b in (0, 1):
